@@ -1103,17 +1103,48 @@ func constSetPredicate(h *ssa.Function) (map[int64]bool, bool) {
 // checkGlobResults implements R17.9.
 func checkGlobResults(p *core.Prog, r *core.Result, compile *ssa.Function) {
 	nFn, nAdd := 0, 0
+	// CompileGlobs itself, or a wrapper of the module whose successful result is CompileGlobs' result
+	isCompile := func(h *ssa.Function) bool {
+		if h == nil {
+			return false
+		}
+		if h == compile {
+			return true
+		}
+		if !core.InModule(h) || h.Blocks == nil || h.Signature.Results().Len() != 2 {
+			return false
+		}
+		n := 0
+		for _, ret := range core.ReturnsOf(h) {
+			vals := core.RetVals(ret)
+			if core.IsNilConst(vals[0]) {
+				continue
+			}
+			e, ok := vals[0].(*ssa.Extract)
+			if !ok || e.Index != 0 {
+				return false
+			}
+			c, ok := e.Tuple.(*ssa.Call)
+			if !ok || core.Callee(c) != compile {
+				return false
+			}
+			n++
+		}
+		return n > 0
+	}
 	for _, f := range p.ModuleFuncs() {
-		if f.Parent() != nil {
+		if f.Parent() != nil || isCompile(f) {
 			continue
 		}
 		// a glob builtin compiles two sets (include, exclude)
 		var sets []ssa.Value
-		for _, c := range core.CallsTo(f, compile) {
-			if call, ok := c.(*ssa.Call); ok {
-				if e := extractOf(call, 0); e != nil {
-					sets = append(sets, e)
-				}
+		for _, c := range core.Calls(f) {
+			call, ok := c.(*ssa.Call)
+			if !ok || !isCompile(core.Callee(c)) {
+				continue
+			}
+			if e := extractOf(call, 0); e != nil {
+				sets = append(sets, e)
 			}
 		}
 		if len(sets) < 2 {
@@ -1175,9 +1206,9 @@ func checkGlobResults(p *core.Prog, r *core.Result, compile *ssa.Function) {
 				k++
 				nAdd++
 				var inc, exc ssa.Value
-				for fct := range p.FactsAt(call) {
+				for _, fct := range xfacts(p, call) {
 					mc, ok := fct.Cond.(*ssa.Call)
-					if !ok || !core.IsMethod(mc, "regexp", "Regexp", "MatchString") || len(mc.Call.Args) != 2 || mc.Call.Args[1] != str {
+					if !ok || !core.IsMethod(mc, "regexp", "Regexp", "MatchString") || len(mc.Call.Args) != 2 || fct.Arg(mc.Call.Args[1]) != str {
 						continue
 					}
 					set := isSet(mc.Call.Args[0])
